@@ -203,12 +203,14 @@ public:
       const Scalar wz  = a_in.z();
       const Scalar wz2 = wz * wz;
 
-      if (wz2 < Scalar(eps2)) {
+      if (wz2 < Scalar(detail::eps2_tail)) {
+        // the closed forms below cancel like 1 / wz^4: use the series beyond eps2
+        const Scalar wz4 = wz2 * wz2;
         return {
-          Scalar(0.5) - wz2 / 24,
-          Scalar(1. / 6) - wz2 / 120,
-          -wz / 12,
-          -wz / 60,
+          Scalar(0.5) - wz2 / 24 + wz4 / 720,
+          Scalar(1. / 6) - wz2 / 120 + wz4 / 5040,
+          wz * (-Scalar(1) / 12 + wz2 / 180 - wz4 / 6720),
+          wz * (-Scalar(1) / 60 + wz2 / 1260 - wz4 / 60480),
         };
       } else {
         const Scalar sTh = sin(wz);
